@@ -132,7 +132,7 @@ func (Prop) Run(t *core.Tape, o core.RunOpts) *core.Result {
 		entropy = vrand.EUniform
 		res.Probes.Inc("marathon_run")
 	}
-	budget := int64(n*calls)*400 + 20000 // only there to end livelocks
+	budget := int64(n*calls)*400 + int64(n*n*calls)*64 + 20000 // only there to end livelocks; the quadratic term is for designs that wake every waiter on every release
 	salt := t.Word()
 	// what the code under test is told about the machine
 	procs := [...]int{4, 1, 2, 8, 16, 64}[t.Choose(6)]
